@@ -1,11 +1,13 @@
 (* C15, per-run side condition over the tables generated from the CURRENT parser._parse_lambda:
    every decision rule that returns a lambda returns the single element of a list it has checked (or
    unpacks, which raises otherwise) to have exactly one element, and the candidate filter keeps every
-   lambda whose line span contains the definition line (both comparisons are <=). *)
+   lambda whose line span contains the definition line (both comparisons are <=), and parse() hands its text to
+   ast.parse without dropping leading lines (the line numbers of the tree are line numbers of the file). *)
 From Coq Require Import List Bool.
 Import ListNotations.
 Require Import MV.Lexer.LambdaSyntax MV.Lexer.LambdaSel MV.Generated.C15_gen.
 
-Theorem lambda_tables_ok : rules_ok select_rules = true /\ span_ok span_ops = true.
-Proof. vm_compute. split; reflexivity. Qed.
+Theorem lambda_tables_ok :
+  rules_ok select_rules = true /\ span_ok span_ops = true /\ norm_ok parse_norm = true.
+Proof. vm_compute. repeat split; reflexivity. Qed.
 Print Assumptions lambda_tables_ok.
